@@ -49,6 +49,9 @@ func scenarios(thorough bool) []Scenario {
 		{Name: "destroy-vs-renewal-timer", NKDC: 1, Renew: true, Prelude: []string{"login"}, Threads: [][]string{{"destroy"}, {"advTimer"}}},
 		{Name: "cross-realm-vs-ticket", NKDC: 1, Prelude: []string{"login"}, Threads: [][]string{{"tX"}, {"tA"}}},
 		{Name: "cross-realm-twice", NKDC: 1, Prelude: []string{"login"}, Threads: [][]string{{"tX"}, {"tX"}}},
+		{Name: "print-vs-login", NKDC: 1, Prelude: []string{"login", "tA"}, Threads: [][]string{{"print"}, {"login"}}},
+		{Name: "print-vs-destroy", NKDC: 1, Prelude: []string{"login", "tA"}, Threads: [][]string{{"print"}, {"destroy"}}},
+		{Name: "cached-ticket-vs-new-ticket", NKDC: 1, Prelude: []string{"login", "tA"}, Threads: [][]string{{"tA"}, {"tB"}}},
 		{Name: "getkdcs-2-kdcs", NKDC: 2, Threads: [][]string{{"getkdcs"}, {"getkdcs"}}},
 		{Name: "getkdcs-3-kdcs", NKDC: 3, Threads: [][]string{{"getkdcs"}, {"getkdcs"}}},
 		{Name: "getkdcs-vs-ticket-2-kdcs", NKDC: 2, Prelude: []string{"login"}, Threads: [][]string{{"getkdcs", "getkpasswd"}, {"tA"}}},
@@ -56,6 +59,8 @@ func scenarios(thorough bool) []Scenario {
 	if thorough {
 		sc = append(sc,
 			Scenario{Name: "getkdcs-vs-ticket-3-kdcs", NKDC: 3, Prelude: []string{"login"}, Threads: [][]string{{"getkdcs", "getkpasswd"}, {"tA"}}},
+			Scenario{Name: "print-vs-renewal-timer", NKDC: 1, Renew: true, Prelude: []string{"login"}, Threads: [][]string{{"print"}, {"advTimer"}}},
+			Scenario{Name: "print-vs-ticket-vs-login", NKDC: 1, Prelude: []string{"login"}, Threads: [][]string{{"print"}, {"tA"}, {"login"}}},
 			Scenario{Name: "three-tickets", NKDC: 1, Prelude: []string{"login"}, Threads: [][]string{{"tA"}, {"tA"}, {"tB"}}},
 			Scenario{Name: "two-tickets-and-login", NKDC: 1, Prelude: []string{"login"}, Threads: [][]string{{"tA"}, {"tB"}, {"login"}}},
 			Scenario{Name: "ticket-login-destroy", NKDC: 1, Prelude: []string{"login"}, Threads: [][]string{{"tA"}, {"login"}, {"destroy"}}},
@@ -113,6 +118,10 @@ func (r *run) do(thread int, op string) {
 			res.Ticket, _ = tkt.Marshal()
 			res.Key, res.KeyEt = key.KeyValue, key.KeyType
 		}
+	case "print":
+		var b bytes.Buffer
+		r.w.Client.Print(&b)
+		res.Count = b.Len()
 	case "advTimer":
 		now := vclock.Now()
 		var best = now
